@@ -103,12 +103,10 @@ def runCuts (cls : List UInt8 → String) (hex spec : String) : Option String :=
   let cs ← cuts? spec bs.length
   pure (rle (cs.map fun (k, d) => (k, match d with | some d => cls (bs.take d) | none => "err")))
 
-/-! oracle: the prefix-restriction predicate of Props/C14 on the implementation's own outputs -/
+/-! oracle: `Readers.prefixOf` (Model/Readers.lean) — the predicate the `no_placeholder_*` theorems of
+    Props/C14 are stated with — evaluated on the implementation's own outputs -/
 
-structure Summary where
-  attrs : List (String × List String)
-  prims : List String
-deriving Repr
+abbrev Summary := Readers.Summary String String
 
 /-- "A name n d1..dn" blocks then "I n i1..in", up to a "|" separator -/
 partial def summary? : List String → Summary → Option (Summary × List String)
@@ -123,16 +121,6 @@ partial def summary? : List String → Summary → Option (Summary × List Strin
       if rest.length < n then none
       summary? (rest.drop n) { s with prims := s.prims ++ rest.take n }
   | _, _ => none
-
-/-- `m` is a prefix-restriction of `x`: every attribute of `m` is an attribute of `x` and its per-vertex
-    values are a prefix of `x`'s; the primitives of `m` are a prefix of `x`'s.  For the formats that are
-    not record-streamed (`streamed = false`) the result must moreover be complete. -/
-def prefixOf (streamed : Bool) (m x : Summary) : Bool :=
-  m.attrs.all (fun (n, vs) =>
-    match x.attrs.lookup n with
-    | some ws => vs.isPrefixOf ws && (streamed || vs.length == ws.length)
-    | none => false)
-  && m.prims.isPrefixOf x.prims && (streamed || m.prims.length == x.prims.length)
 
 def handle (op : String) (args : List String) : Option String :=
   match op, args with
@@ -157,7 +145,8 @@ def handle (op : String) (args : List String) : Option String :=
   | "c14.holds.prefix_only", _fmt :: streamed :: _k :: rest => do
       let (x, rest) ← summary? rest ⟨[], []⟩
       let (m, _) ← summary? rest ⟨[], []⟩
-      pure (boolStr (prefixOf (streamed == "1") m x))
+      let mode := if streamed == "1" then Mode.streamed else if streamed == "2" then Mode.restricted else Mode.complete
+      pure (boolStr (prefixOf mode m x))
   | _, _ => none
 
 end Driver.C14
